@@ -7,11 +7,21 @@ HARNESSES = [
          flags=["--arrays-uf-always"], units=["lib/lzs_decoder.c", "lib/bit_stream_reader.c"], timeout=600, mem_gb=4,
          bounds="one command (literal or copy, any position 0..2047, any length 2..17) from an arbitrary 2 KiB ring, write position and bit alignment 0..7; arbitrary short reads of the callback",
          stubs=["cb_read: symbolic 4-byte stream, symbolic short reads"]),
+] + [
+    dict(name="lzs.kernel.r32p%d" % kp, src="C03/lzs.c", entry="harness_kernel_seq", unwind=34, defines=["LHASA_VERIF_RING_BUFFER_SIZE=32", "KPOS=%d" % kp], optional_witnesses=True,
+         units=["lib/lzs_decoder.c:output_block,output_byte (window scaled to 32 bytes by the LHASA_VERIF hook)"], timeout=300, mem_gb=4,
+         bounds="one copy of any length 2..17 from any start position, arbitrary 32-byte ring (scaled), write position %d; sequential-definition oracle; default array encoding" % kp)
+    for kp in (0, 5, 16, 27, 31)] + [
     dict(name="lzs.init", src="C03/lzs.c", entry="harness_init", unwind=2050, units=["lib/lzs_decoder.c"], timeout=120,
          bounds="concrete", claim="ring = spaces, pos = 2048-17"),
     dict(name="lz5.kernel", src="C03/lz5.c", entry="harness_kernel", unwind=19, flags=["--arrays-uf-always"],
          units=["lib/lz5_decoder.c:output_block,output_byte"], timeout=600, mem_gb=4,
          bounds="one copy of any length 3..18 from any start position, arbitrary 4 KiB ring, write position, output fill; plus one literal"),
+] + [
+    dict(name="lz5.kernel.r32p%d" % kp, src="C03/lz5.c", entry="harness_kernel_seq", unwind=34, defines=["LHASA_VERIF_RING_BUFFER_SIZE=32", "KPOS=%d" % kp], optional_witnesses=True,
+         units=["lib/lz5_decoder.c:output_block,output_byte (window scaled to 32 bytes by the LHASA_VERIF hook)"], timeout=300, mem_gb=4,
+         bounds="one copy of any length 3..18 from any start position, arbitrary 32-byte ring (scaled), write position %d; sequential-definition oracle - seam crossing and self-overlap in every combination with this write position; default array encoding" % kp)
+    for kp in (0, 5, 16, 27, 31)] + [
     dict(name="lz5.run", src="C03/lz5.c", entry="harness_run", defines=["RUN_HARNESS", "CB_N=17"],
          rename_defs={"lib/lz5_decoder.c": ["output_byte", "output_block"]}, unwind=9, unwindset={"cb_read.0": 3, "harness_run.0": 18},
          units=["lib/lz5_decoder.c:lha_lz5_read"], timeout=300,
